@@ -58,6 +58,11 @@ PrD(id, e, ds) == [k |-> "print", id |-> id, e |-> e,
 NoBody == [has |-> FALSE, body |-> <<>>]
 Body(b) == [has |-> TRUE, body |-> b]
 PV(key, e) == [k |-> "pv", key |-> key, e |-> e]
+\* Globals given at compile time.  The map- and list-valued ones are reference
+\* values that belong to the compiled bundle (one object behind every use).
+Glob(n) == [k |-> "global", name |-> n]
+TheGlobals == [GM |-> M([k |-> S("g")]), GL |-> L(<<I(1), I(2)>>), GS |-> S("s&")]
+
 PC(key, b) == [k |-> "pc", key |-> key, body |-> b]
 Call(t, data, params) == [k |-> "call", tmpl |-> t, data |-> data, de |-> [k |-> "null"], params |-> params]
 \* data="<expression>"
@@ -85,6 +90,17 @@ T2 == [params |-> <<[name |-> "x", opt |-> FALSE], [name |-> "xs", opt |-> FALSE
                     body |-> <<Pr("p4", Var("i"), <<>>), Tx(",")>>,
                     empty |-> Body(<<Tx("none")>>)],
                    Pr("p5", VarKey("ij", "who"), <<>>),
+                   \* collection-valued globals through everything that takes a collection
+                   Pr("p18", Fn("length", <<Fn("keys", <<Fn("augmentMap", <<[k |-> "map", items |-> <<[key |-> "a", val |-> EI(1)]>>], Glob("GM")>>)>>)>>), <<>>),
+                   Pr("p19", Fn("length", <<Fn("keys", <<Fn("augmentMap", <<Glob("GM"), [k |-> "map", items |-> <<[key |-> "b", val |-> EI(2)]>>]>>)>>)>>), <<>>),
+                   Pr("p20", Fn("keys", <<Glob("GM")>>), <<>>),
+                   Pr("p21", Fn("length", <<Glob("GL")>>), <<>>),
+                   [k |-> "foreach", kw |-> "foreach", var |-> "j", e |-> Glob("GL"),
+                    body |-> <<Pr("p22", Var("j"), <<>>)>>, empty |-> NoBody],
+                   [k |-> "letv", name |-> "g", e |-> Glob("GM")],
+                   Pr("p23", VarKey("g", "k"), <<>>),
+                   Pr("p24", Glob("GS"), <<>>),
+                   CallE("a.t0", Glob("GM"), <<PV("z", ES("G"))>>),
                    [k |-> "if", brs |-> <<[c |-> Bin("eq", Var("x"), ES("")), body |-> <<Tx("E")>>]>>,
                     \* three directives: the parser's slice has spare capacity, where an
                     \* append that does not copy first would write
@@ -131,7 +147,7 @@ Templates == <<"a.t1", "a.t2", "b.t3">>
 
 \* the source files and the print nodes each contains, in source order
 Files == <<"a.soy", "b.soy">>
-FileIds == ("a.soy" :> <<"p1", "p2", "p11", "p12", "p13", "p14", "p3", "p4", "p5", "p6", "p16">>)
+FileIds == ("a.soy" :> <<"p1", "p2", "p11", "p12", "p13", "p14", "p3", "p4", "p5", "p18", "p19", "p20", "p21", "p22", "p23", "p24", "p6", "p16">>)
            @@ ("b.soy" :> <<"p7", "p8", "p15", "p9", "p10", "p17">>)
 
 TheExpr == Bin("add", Fn("round", <<[k |-> "float", num |-> 7, sh |-> 1]>>),
@@ -218,7 +234,7 @@ Ops == IF Switching
 
 ProgOf(r, st, c, o) ==
   [bundle |-> r.bundle, entry |-> o.t, data |-> st.data[o.d], ij |-> IF c.ij = "b" THEN IJB ELSE st.ij,
-   glob |-> [x \in {} |-> Null], plan |-> [kind |-> "none"], cfg |-> c]
+   glob |-> TheGlobals, plan |-> [kind |-> "none"], cfg |-> c]
 
 \* generated JavaScript is a function of the tree; abstractly: the directive
 \* lists of the file's print nodes
@@ -292,7 +308,7 @@ Setup == [cfgname |-> CfgName, cfg |-> [oblig |-> Cfg0.oblig, fns |-> Cfg0.fns],
           switch |-> [i \in 1..Len(SwitchCfgs) |->
                         [name |-> SwitchCfgs[i].name, oblig |-> SwitchCfgs[i].oblig, sfx |-> SwitchCfgs[i].sfx,
                          fns |-> SwitchCfgs[i].fns, ij |-> SwitchCfgs[i].ij, msgs |-> SwitchCfgs[i].msgs]],
-          ijb |-> IJB,
+          ijb |-> IJB, globals |-> TheGlobals,
           bundle |-> TheBundle, data |-> Store0.data, ij |-> Store0.ij, expr |-> TheExpr,
           files |-> Files]
 
